@@ -256,6 +256,48 @@ func runC10(rc *RunCtx) {
 			}
 		}
 	}
+	// requests whose argument equals what is already in force (a write that would change nothing) still need the role
+	if rc.Shard == 2%rc.NShards {
+		for flags := 0; flags < 4; flags++ {
+			e, err := StdEngine(rc, false, false, func(gs *ct.GenesisState, cfg *chain.Config) {
+				gs.SendingAndReceivingMessagesPaused.Paused = flags&1 != 0
+				gs.BurningAndMintingPaused.Paused = flags&2 != 0
+				gs.PerMessageBurnLimitList = []ct.PerMessageBurnLimit{{Denom: "uusdc", Amount: sdkInt(500)}}
+			})
+			if err != nil {
+				continue
+			}
+			s := e.M
+			noops := []func(f string) sdk.Msg{
+				func(f string) sdk.Msg { return &ct.MsgUpdateOwner{From: f, NewOwner: s.Owner} },
+				func(f string) sdk.Msg { return &ct.MsgUpdateAttesterManager{From: f, NewAttesterManager: s.AM} },
+				func(f string) sdk.Msg { return &ct.MsgUpdatePauser{From: f, NewPauser: s.Pauser} },
+				func(f string) sdk.Msg { return &ct.MsgUpdateTokenController{From: f, NewTokenController: s.TC} },
+				func(f string) sdk.Msg { return &ct.MsgUpdateMaxMessageBodySize{From: f, MessageSize: s.MaxBody} },
+				func(f string) sdk.Msg { return &ct.MsgUpdateSignatureThreshold{From: f, Amount: s.Threshold} },
+				func(f string) sdk.Msg { return &ct.MsgPauseBurningAndMinting{From: f} },
+				func(f string) sdk.Msg { return &ct.MsgUnpauseBurningAndMinting{From: f} },
+				func(f string) sdk.Msg { return &ct.MsgPauseSendingAndReceivingMessages{From: f} },
+				func(f string) sdk.Msg { return &ct.MsgUnpauseSendingAndReceivingMessages{From: f} },
+				func(f string) sdk.Msg { return &ct.MsgSetMaxBurnAmountPerMessage{From: f, LocalToken: "uusdc", Amount: mkInt(big.NewInt(500))} },
+				func(f string) sdk.Msg { return &ct.MsgAddRemoteTokenMessenger{From: f, DomainId: 0, Address: s.Messengers[0]} },
+				func(f string) sdk.Msg { return &ct.MsgLinkTokenPair{From: f, RemoteDomain: 0, RemoteToken: Token(0), LocalToken: "uusdc"} },
+				func(f string) sdk.Msg { return &ct.MsgEnableAttester{From: f, Attester: firstAttester(s)} },
+				func(f string) sdk.Msg { return &ct.MsgRemoveRemoteTokenMessenger{From: f, DomainId: 4242} },
+				func(f string) sdk.Msg { return &ct.MsgUnlinkTokenPair{From: f, RemoteDomain: 4242, RemoteToken: Token(0), LocalToken: "uusdc"} },
+				func(f string) sdk.Msg { return &ct.MsgDisableAttester{From: f, Attester: AttesterPool[9].Spell(0)} },
+			}
+			for ni, mk := range noops {
+				for fi, from := range []string{S, Acct(OtherIx), s.Owner, s.AM, s.Pauser, s.TC} {
+					m := mk(from)
+					r := e.Exec(Tx{Msgs: msgs1(m), Note: "C10 request that would change nothing"})
+					rc.Cov.Assert("C10.no-op-requests-need-the-role")
+					rc.Cov.Cell("C10_noop_requests", fmt.Sprintf("%s/submitter%d/%s", shapeMsg(m), fi, okWord(r.OK)))
+					_ = ni
+				}
+			}
+		}
+	}
 	// many rotations of one role slot: after each, the new holder is served and the previous one refused
 	for slot := 0; slot < 4; slot++ {
 		if slot%rc.NShards != rc.Shard {
@@ -730,6 +772,41 @@ var c12Flows = []string{"send", "send-with-caller", "deposit", "deposit-with-cal
 
 func runC12(rc *RunCtx) {
 	defer ProbeHistory(rc, rc.Pick(200, 800), false)
+	// the pauser's four transactions do not depend on the attester configuration: one key under two spellings with
+	// threshold 2, a single attester, a threshold above the set, no attesters at all
+	for v := 0; v < 4; v++ {
+		if v%rc.NShards != rc.Shard {
+			continue
+		}
+		e, err := StdEngine(rc, false, false, func(gs *ct.GenesisState, cfg *chain.Config) {
+			switch v {
+			case 0:
+				gs.AttesterList = []ct.Attester{{Attester: AttesterPool[0].Spell(0)}, {Attester: AttesterPool[0].Spell(1)}}
+				gs.SignatureThreshold = &ct.SignatureThreshold{Amount: 2}
+			case 1:
+				gs.AttesterList = []ct.Attester{{Attester: AttesterPool[0].Spell(2)}}
+				gs.SignatureThreshold = &ct.SignatureThreshold{Amount: 1}
+			case 2:
+				gs.AttesterList = []ct.Attester{{Attester: AttesterPool[0].Spell(2)}, {Attester: AttesterPool[1].Spell(3)}}
+				gs.SignatureThreshold = &ct.SignatureThreshold{Amount: 5}
+			case 3:
+				gs.AttesterList = nil
+				gs.SignatureThreshold = nil
+			}
+		})
+		if err != nil {
+			rc.Cov.Inconclusive("c12 attester-config chain: " + err.Error())
+			continue
+		}
+		for rep := 0; rep < 2; rep++ {
+			for _, m := range []sdk.Msg{&ct.MsgPauseSendingAndReceivingMessages{From: e.M.Pauser}, &ct.MsgUnpauseSendingAndReceivingMessages{From: e.M.Pauser},
+				&ct.MsgPauseBurningAndMinting{From: e.M.Pauser}, &ct.MsgUnpauseBurningAndMinting{From: e.M.Pauser},
+				&ct.MsgSendMessage{From: Acct(UserIx), DestinationDomain: 0, Recipient: Structured32(3), MessageBody: []byte("after unpause")}} {
+				r := e.Exec(Tx{Msgs: msgs1(m), Note: fmt.Sprintf("C12 pause transactions under attester configuration %d", v)})
+				rc.Cov.Cell("C12_attester_configs", fmt.Sprintf("config%d/%s/%s", v, shapeMsg(m), okWord(r.OK)))
+			}
+		}
+	}
 	nonce := uint64(50000)
 	for round := 0; round < rc.Pick(2, 8); round++ {
 		if round%rc.NShards != rc.Shard {
